@@ -173,6 +173,19 @@ def check(ctx: Ctx) -> None:
                   f'merchants differ in letter case only, `tally explain` shows the classification of the other one, not the one `tally up` reported under that name', c)
     fs = {k: proj.func(v) for k, v in COMMANDS.items()}
     feats = {k: _features(ctx, f) for k, f in fs.items()}
+    # supplemental data is loaded under the same conditions as in `up` (there: always) - rules reach it through let: bindings and field expressions too,
+    # so "no match expression names it" is no reason to leave it out
+    def load_guards(f_):
+        fl_ = get_flow(proj, f_)
+        cs = fl_.calls('load_supplemental_sources')
+        return [sorted(fl_.cfg.guard_literals(fl_.stmt_of(c))) for c in cs], cs
+    up_g, _c = load_guards(fs['up'])
+    for cmd in ('explain', 'discover'):
+        g_, cs_ = load_guards(fs[cmd])
+        if up_g and g_:
+            extra = [x for x in g_[0] if x not in up_g[0] and not x[0].startswith(('args.', 'not args.'))]
+            ctx.check(not extra, 'C16.R1', fs[cmd], 'supplemental-loaded-alike', 'supplemental sources are loaded whenever `up` loads them',
+                      f'{cmd} loads the supplemental sources only under {extra}: rules that query them through let: / field: then never match in {cmd}, although they do in `up`', cs_[0])
     ref = feats['up']
     keys = ['skips-supplemental-sources', 'loads-supplemental-data', 'loads-transforms', 'loads-rules', 'passes-rule-mode', 'collects-all', 'reorders-transactions', 'parse_amex-args', 'parse_boa-args']
     for cmd in ('explain', 'discover'):
@@ -341,6 +354,14 @@ def r4(ctx: Ctx) -> None:
                   f'kind of modifier is unconditional for `tally explain` and conditional for `tally up`', fl.calls('check_all_conditions')[0])
     elif ga or gb:
         ctx.unknown('C16.R4', ed, 'check_all_conditions is called by only one of normalize_merchant / explain_description')
+    # … and a legacy pattern is searched with the same flags by both
+    def search_flags(fl_):
+        return sorted({' | '.join(sorted(src(a_) for a_ in c.args[2:])) + ''.join(f' {k.arg}={src(k.value)}' for k in c.keywords)
+                       for c in fl_.calls('search') if dotted(c.func) == 're.search'})
+    fa, fb = search_flags(nfl), search_flags(fl)
+    if fa and fb:
+        ctx.check(fa == fb, 'C16.R4', ed, 'legacy-regex-flags', f'legacy patterns are searched with {fa} by both', f'explain_description searches legacy patterns with flags {fb}, '
+                  f'normalize_merchant with {fa}: a lower-case CSV pattern matches for `tally up` and not for `tally explain`')
     at_calls = fl.calls('apply_transforms')
     m_calls = fl.calls('matches_transaction')
     if not at_calls or not m_calls:
